@@ -111,3 +111,54 @@ def show_assertion(a):
     if a[0] == "NEN":
         return f"NEN {NAMES[a[1]]}>{NAMES[a[2]]} elim {{{','.join(NAMES[c] for c in sorted(a[3]))}}} ({a[4]} v {a[5]}) diff {a[6]:.6g}"
     return str(a)
+
+
+# ---------------------------------------------------------------- weighted families
+# A second family of profiles reaches larger and more varied tallies than multisets of <= B ballots can:
+# k distinct ballot types, each cast w times.  FAMILIES[name] = (n, type alphabet, max distinct types, weights).
+def _idx(n, names):
+    al = list(R.rankings(n))
+    out = []
+    for s in names:
+        r = tuple(NAMES.index(c) for c in s.split(">")) if s else ()
+        out.append(al.index(r))
+    return sorted(set(out))
+
+
+# 5-candidate alphabet: 20 rankings of length 2-3 among which deep (length 4-5) branches of the RAIRE search
+# tree carry the deciding assertion for some weightings
+HARD5 = ["B>C>A", "C>B", "C>E>D", "D>E>B", "E>D", "A>D>C", "D>C", "D>C>A", "E>A>C",
+         "A>E>C", "C>D>E", "D>A", "E>B>D", "B>A>E", "C>D>B", "D>E", "E>C>A", "A>B", "B>E", "C>A>B"]
+
+
+def families(tier):
+    if tier == "quick":
+        n4 = [i for i, r in enumerate(R.rankings(4)) if 1 <= len(r) <= 3]  # 40 rankings of length 1-3
+        fam = {"n4-3types": (4, n4, 3, (1, 2)), "n5-hard12": (5, _idx(5, HARD5[:12]), 5, (2, 3))}
+    else:
+        n4 = list(range(len(R.rankings(4))))  # every partial ranking of 4 candidates (blank included)
+        fam = {"n4-3types": (4, n4, 3, (1, 2)), "n5-hard20": (5, _idx(5, HARD5), 5, (2, 3))}
+        fam["n4-4types-short"] = (4, [i for i, r in enumerate(R.rankings(4)) if 1 <= len(r) <= 2], 4, (1, 2, 3))
+    return fam
+
+
+def weighted_profiles(types, K, W, first):
+    """profiles whose smallest type is `first`: k <= K distinct types from `types`, weights from W"""
+    pos = types.index(first)
+    rest = types[pos + 1:]
+    for k in range(1, K + 1):
+        for others in itertools.combinations(rest, k - 1):
+            ts = (first,) + others
+            for ws in itertools.product(W, repeat=k):
+                prof = []
+                for t, w in zip(ts, ws):
+                    prof += [t] * w
+                yield tuple(prof)
+
+
+def weighted_shards(tier, only_full_k=None):
+    out = []
+    for name, (n, types, K, W) in families(tier).items():
+        for first in types:
+            out.append(("wt", name, first))
+    return out
